@@ -65,7 +65,40 @@ def main(argv=None):
         rep.fail(pid + ".build", "extraction", "fact extraction failed: %s" % str(e)[-1500:])
     except Exception:  # evaluator bug: fail closed, with the trace
         rep.fail(pid + ".internal", "exception", "internal error (fail closed):\n" + traceback.format_exc()[-3000:])
-    return rep.finish(getattr(mod, "EXPLANATION", ""), getattr(mod, "RULES", ""))
+    st_rc = 0
+    if args.tier == "thorough" and os.environ.get("VERIF_REPO") in (None, "", "/repo") and os.environ.get("VERIF_NO_SELFTEST") != "1":
+        st_rc = run_selftest(pid, rep)
+    rc = rep.finish(getattr(mod, "EXPLANATION", ""), getattr(mod, "RULES", ""))
+    return rc or st_rc
+
+
+def run_selftest(pid, rep):
+    """Thorough tier: the checker is exercised on variants of the current tree (sa/selftest.py).  A failing
+    self-test is a defect of the checker, not a violation of the property: it is printed as SELFTEST-FAILED and makes
+    the command exit 2, but only on the tree the variants were validated on (seeded/VALIDATED_TREE); on any other
+    tree a patch may legitimately stop applying or stop mattering, and the outcome is informational."""
+    from . import selftest
+    try:
+        results = selftest.run_for(pid, jobs=int(os.environ.get("VERIF_JOBS", "8")))
+    except Exception:
+        rep.note("self-test could not be run: " + traceback.format_exc()[-800:])
+        return 0
+    for line in selftest.summarise(results):
+        print(line)
+    rep.selftest = results
+    validated = None
+    vp = os.path.join(build.VERIF, "seeded", "VALIDATED_TREE")
+    if os.path.exists(vp):
+        with open(vp) as f:
+            validated = f.read().split()[0]
+    current = build._hash_tree(build.REPO, "sources", with_driver=False)
+    strict = validated == current
+    rep.note("self-test: %d variants (%d seeded, %d benign), %d failed, %d skipped; tree %s the one the variants were validated on" % (
+        len(results), sum(1 for r in results if r["kind"] == "seeded"), sum(1 for r in results if r["kind"] == "benign"),
+        sum(1 for r in results if r["status"] == "FAILED"), sum(1 for r in results if r["status"] == "skipped"),
+        "is" if strict else "is not"))
+    failed = [r for r in results if r["status"] == "FAILED"]
+    return 2 if (failed and strict) else 0
 
 
 if __name__ == "__main__":
